@@ -203,6 +203,16 @@ def lsp_session(wd, tcp, default_paths, rng, label, variant=None):
             time.sleep(0.2)
             s.command("HarperAddToFileDict", ["wrold", keep])
             s.command("HarperAddToUserDict", ["teh", keep])
+            # a document so deep in the tree that the flattened name of its file dictionary exceeds NAME_MAX
+            deep = os.path.join(files, *["d%02d_" % i + "x" * 44 for i in range(6)], "deep.md")
+            os.makedirs(os.path.dirname(deep), exist_ok=True)
+            with open(deep, "w") as f:
+                f.write("A deep document with a zorptang.\n")
+            s.open(uri_for(deep), "A deep document with a zorptang.\n", "markdown")
+            s.command("HarperAddToFileDict", ["zorptang", uri_for(deep)])
+            s.command("HarperAddToUserDict", ["zorptangle", uri_for(deep)])
+            s.save(uri_for(deep), wait=False)
+            time.sleep(0.2)
             late = os.path.join(files, "late.md")
             s.open(uri_for(late), "A late document with a qzxvb.", "markdown")
             s.command("HarperAddToFileDict", ["qzxvb", uri_for(late)])
